@@ -239,3 +239,12 @@ package idl
 //@   ensures [desc C05] result1 == nil ==> result0 != nil && result0.Description == description
 //@   ensures [methods C06] result1 == nil ==> len(result0.Methods) >= 1
 //@   ensures [members C05] result1 == nil ==> len(result0.Members) == len(result0.Aliases) + len(result0.Methods) + len(result0.Errors)
+
+// ---- object invariants (C07): proved at every return of this package that yields such an object,
+// assumed by other packages; objects of these types are never modified after construction.
+//@ invariant Type : [kind C07] self.Kind <= TypeAlias
+//@ invariant Type : [elem C07] (self.Kind == TypeArray || self.Kind == TypeMap || self.Kind == TypeMaybe) ==> self.ElementType != nil
+//@ invariant Type : [fields C07] self.Kind == TypeStruct ==> (forall j int :: 0 <= j && j < len(self.Fields) ==> self.Fields[j].Type != nil)
+//@ invariant Alias : [type C07] self.Type != nil
+//@ invariant Method : [inout C07] self.In != nil && self.Out != nil
+//@ invariant IDL : [members C07] (forall i int :: 0 <= i && i < len(self.Aliases) ==> self.Aliases[i] != nil) && (forall i int :: 0 <= i && i < len(self.Methods) ==> self.Methods[i] != nil) && (forall i int :: 0 <= i && i < len(self.Errors) ==> self.Errors[i] != nil)
